@@ -1,5 +1,5 @@
 """C20 - numeric ID order is compatible with the hierarchy from the quintant level down."""
-from .. import core, gen, spec
+from .. import bulk, core, gen, spec
 
 LEVEL = "proof"
 
@@ -154,7 +154,9 @@ def run(run):
             if in_sub != in_int:
                 run.violation("subtree membership and id-interval membership differ", q, a, {"p": p, "q": qq, "lo": lo, "hi": hi})
             run.nontrivial.add(("sub", p, qq))
-    run.rule = ("pairs of same-resolution cells r in 2..29 (40% straddling a parent boundary at a random level, 30% adjacent, 30% random) x every ancestor level 1..r, "
+    # bulk: the descendants of one cell at a depth difference of 9..12 levels (2.6*10^5 .. 1.7*10^7 ids): all of them and only them
+    bulk.check(run, bulk.children_requests(run), "cell_to_children (bulk)")
+    run.rule = ("bulk expansions by 9..12 levels (up to 4e6 ids quick / 2e7 thorough; digest vs model and closed-form sum: every descendant inside the interval of its ancestor); pairs of same-resolution cells r in 2..29 (40% straddling a parent boundary at a random level, 30% adjacent, 30% random) x every ancestor level 1..r, "
                 "descendant depth <= 4, first-child/stride checks; subtree-interval triples (inside, neighbouring subtree, random); "
                 "non-trivial = distinct (a,b,level) and (p,q) combinations judged")
     run.samples = [{"request": reqs[i], "impl": impl[i][:160], "model": model[i][:160]} for i in rng.sample(range(len(reqs)), 6)]
